@@ -87,7 +87,9 @@ def signature(ev, invariant):
     if ev.get("e") == "Process":
         return "verdict:%s:%s" % ("accepted" if ev.get("ok") else "refused", ev.get("class"))
     if ev.get("e") == "Adopt":
-        return "adopt:%s" % ("adopted" if ev.get("ok") else "refused")
+        return "adopt:%s" % ev.get("cls", "adopted" if ev.get("ok") else "refused")
+    if ev.get("e") == "Pool":
+        return "pool:%s" % ev.get("cls")
     return "rejected:" + str(ev.get("e"))
 
 
@@ -213,8 +215,9 @@ def binding_demo(ctx, run, label, mutations):
         evs, at = fn(copy.deepcopy(run))
         if evs is None:
             raise Infra("binding demonstration %s: the recorded run offers no event to mutate" % name)
-        hwm = must_reject(ctx, name, evs, label)
-        if not (at <= hwm <= at + 60):
+        # a changed field is refused on the spot; a deleted event by the first later event that depends on it
+        hwm = must_reject(ctx, name, evs if "deleted" in name else evs[:at + 90], label)
+        if not (at <= hwm <= at + (250 if "deleted" in name else 0)):
             raise Infra("binding demonstration %s: mutated at %d but rejected at %d" % (name, at, hwm))
         done.append("%s@%d->rejected@%d" % (name, at, hwm))
     ctx.cov["binding_demo"] = ctx.cov.get("binding_demo", []) + done
@@ -233,6 +236,23 @@ def mut_delete(kind):
             return None, 0
         return evs[:i] + evs[i + 1:], i
     return fn
+
+
+def mut_delete_read(evs):
+    """a Read that moved its reader, followed within 50 events by another Read of the same reader"""
+    cands = []
+    for i, e in enumerate(evs):
+        if e["e"] == "Read" and e["out"]:
+            for j in range(i + 1, min(i + 50, len(evs))):
+                if evs[j]["e"] == "Read" and evs[j]["r"] == e["r"]:
+                    cands.append(i)
+                    break
+                if evs[j]["e"] in ("Reset", "Reopen"):
+                    break
+    if not cands:
+        return None, 0
+    i = cands[len(cands) // 2]
+    return evs[:i] + evs[i + 1:], i
 
 
 def mut_bynum(evs):
@@ -331,6 +351,22 @@ def mut_adopt(evs):
     if i is None:
         return None, 0
     evs[i]["ok"] = True
+    return evs, i
+
+
+def mut_adopt_class(evs):
+    i = pick(evs, lambda e: e["e"] == "Adopt" and e.get("cls") == "bad")
+    if i is None:
+        return None, 0
+    evs[i]["cls"] = "later"
+    return evs, i
+
+
+def mut_pool(evs):
+    i = pick(evs, lambda e: e["e"] == "Pool" and e.get("cls") == "rejected")
+    if i is None:
+        return None, 0
+    evs[i]["cls"] = "executable"
     return evs, i
 
 
